@@ -1,0 +1,201 @@
+//go:build verif
+
+// Contracts for package verifier, checked by /verif/govc (comment-only; not part of any normal build).
+
+package verifier
+
+// Interface methods and helpers without a body under contract. ASSUMED (trusted): they read the
+// credential / presentation they are given and do not modify memory visible to the caller.
+//@ func (credential.Validator).Validate
+//@   trusted
+//@   benign
+//@ func (revocation.StatusList2021Verifier).Verify
+//@   trusted
+//@   benign
+//@ func (Store).GetRevocations
+//@   trusted
+//@   benign
+//@ func (Store).StoreRevocation
+//@   trusted
+//@   benign
+//@ func (resolver.DIDResolver).Resolve
+//@   trusted
+//@   benign
+//@ func (resolver.KeyResolver).ResolveKeyByID
+//@   trusted
+//@   benign
+//@ func (Verifier).Verify
+//@   trusted
+//@   benign
+//@ func (*trust.Config).IsTrusted
+//@   trusted
+//@   pure
+
+// ---- C01 / C11: a credential verifies only if valid, untampered, current, unrevoked ----
+
+//@ func (verifier).Verify
+//@   prop C01 C11 C19
+//@   safety
+//@   nullable validAt
+//@   ensures [validated] isNilIface(result) ==> did(call (credential.Validator).Validate #1)
+//@           && arg(call (credential.Validator).Validate #1, 1) == credentialToVerify && isNilIface(ret(call (credential.Validator).Validate #1))
+//@   ensures [at-most-two-types] isNilIface(result) ==> len(credentialToVerify.Type) <= 2
+//@   ensures [not-revoked-by-issuer] isNilIface(result) && credentialToVerify.ID != nil ==>
+//@           did(call (*verifier).IsRevoked #1) && arg(call (*verifier).IsRevoked #1, 1) == old(*credentialToVerify.ID)
+//@           && ret(call (*verifier).IsRevoked #1).0 == false && isNilIface(ret(call (*verifier).IsRevoked #1).1)
+//@   ensures [status-list-not-revoked] isNilIface(result) ==> did(call (revocation.StatusList2021Verifier).Verify #1)
+//@           && arg(call (revocation.StatusList2021Verifier).Verify #1, 1) == credentialToVerify
+//@           && ( isNilIface(ret(call (revocation.StatusList2021Verifier).Verify #1))
+//@                || !errors.Is(ret(call (revocation.StatusList2021Verifier).Verify #1), types.ErrRevoked) )
+//@   loop 1 invariant forall k int :: 0 <= k && k < $i && credentialToVerify.Type[k].String() != verifiableCredentialType
+//@          ==> v.trustConfig.IsTrusted(credentialToVerify.Type[k], credentialToVerify.Issuer)
+//@   ensures [trusted-issuer] isNilIface(result) && !allowUntrusted ==> forall k int :: 0 <= k && k < len(credentialToVerify.Type)
+//@           && credentialToVerify.Type[k].String() != verifiableCredentialType
+//@          ==> v.trustConfig.IsTrusted(credentialToVerify.Type[k], credentialToVerify.Issuer)
+//@   ensures [valid-at-time] isNilIface(result) ==> did(call (vc.VerifiableCredential).ValidAt #1)
+//@           && arg(call (vc.VerifiableCredential).ValidAt #1, 0) == credentialToVerify
+//@           && (validAt != nil ==> arg(call (vc.VerifiableCredential).ValidAt #1, 1) == old(*validAt))
+//@           && (validAt == nil ==> arg(call (vc.VerifiableCredential).ValidAt #1, 1) == ret(call time.Now #1))
+//@           && arg(call (vc.VerifiableCredential).ValidAt #1, 2) == maxSkew
+//@           && ret(call (vc.VerifiableCredential).ValidAt #1) == true
+//@   call (resolver.DIDResolver).Resolve #1 requires [issuer-resolved-at-time-not-deactivated]
+//@           arg(2).ResolveTime == validAt && arg(2).AllowDeactivated == false
+//@           && issuerDID != nil && arg(1) == *issuerDID && issuerDID == ret(call did.ParseDID #1).0
+//@           && arg(call did.ParseDID #1, 0) == credentialToVerify.Issuer.String()
+//@   ensures [signature-checked] isNilIface(result) && checkSignature ==>
+//@           did(call (resolver.DIDResolver).Resolve #1) && isNilIface(ret(call (resolver.DIDResolver).Resolve #1).2)
+//@           && did(call (*signatureVerifier).VerifySignature #1) && isNilIface(ret(call (*signatureVerifier).VerifySignature #1))
+//@           && arg(call (*signatureVerifier).VerifySignature #1, 1) == credentialToVerify
+//@           && arg(call (*signatureVerifier).VerifySignature #1, 2) == validAt
+
+//@ func (*verifier).IsRevoked
+//@   prop C01 C11
+//@   modifies nothing
+//@   ensures [revoked-iff-revocation-stored] result.0 == true <==> isNilIface(ret(call (Store).GetRevocations #1).0 == nil ? ret(call (Store).GetRevocations #1).1 : ret(call (Store).GetRevocations #1).1)
+//@   ensures [lookup-by-id] arg(call (Store).GetRevocations #1, 1) == credentialID
+//@   ensures [errors-propagate] !isNilIface(ret(call (Store).GetRevocations #1).1) && !errors.Is(ret(call (Store).GetRevocations #1).1, ErrNotFound)
+//@           ==> !isNilIface(result.1)
+//@   ensures [not-found-is-not-revoked] !isNilIface(ret(call (Store).GetRevocations #1).1) && errors.Is(ret(call (Store).GetRevocations #1).1, ErrNotFound)
+//@           ==> result.0 == false && isNilIface(result.1)
+
+// ---- C11: a revocation is accepted only from the issuer's key ----
+//@ func (*verifier).RegisterRevocation
+//@   prop C11 C19
+//@   safety
+//@   call (Store).StoreRevocation #1 requires [issuer-only]
+//@           isNilIface(ret(call credential.ValidateRevocation #1)) && arg(call credential.ValidateRevocation #1, 0) == revocation
+//@        && subjectIssuer == revocation.Issuer.String() && vmIssuer == revocation.Issuer.String()
+//@        && subjectIssuer == strings.Split(revocation.Subject.String(), "#")[0]
+//@        && vmIssuer == strings.Split(revocation.Proof.VerificationMethod.String(), "#")[0]
+//@        && isNilIface(ret(call (resolver.KeyResolver).ResolveKeyByID #1).1)
+//@        && arg(call (resolver.KeyResolver).ResolveKeyByID #1, 1) == revocation.Proof.VerificationMethod.String()
+//@        && arg(call (resolver.KeyResolver).ResolveKeyByID #1, 3) == resolver.NutsSigningKeyType
+//@        && did(call (proof.LDProof).Verify #1) && isNilIface(ret(call (proof.LDProof).Verify #1))
+//@        && arg(call (proof.LDProof).Verify #1, 3) == ret(call (resolver.KeyResolver).ResolveKeyByID #1).0
+//@        && arg(1) == revocation
+//@   call (resolver.KeyResolver).ResolveKeyByID #1 requires [key-valid-at-revocation-date] arg(2).ResolveTime != nil && *arg(2).ResolveTime == revocation.Date
+//@   ensures [success-only-if-stored] isNilIface(result) ==> did(call (Store).StoreRevocation #1) && isNilIface(ret(call (Store).StoreRevocation #1))
+
+// ---- C01: presentations ----
+//@ func (verifier).doVerifyVP
+//@   prop C01 C19
+//@   safety
+//@   nullable validAt
+//@   ensures [presenter-is-subject] isNilIface(result.1) ==> did(call credential.PresenterIsCredentialSubject #1)
+//@           && arg(call credential.PresenterIsCredentialSubject #1, 0) == presentation && isNilIface(ret(call credential.PresenterIsCredentialSubject #1).1)
+//@           && (len(presentation.VerifiableCredential) > 0 ==> ret(call credential.PresenterIsCredentialSubject #1).0 != nil)
+//@   ensures [signature-verified] isNilIface(result.1) ==> did(call (*signatureVerifier).VerifyVPSignature #1)
+//@           && arg(call (*signatureVerifier).VerifyVPSignature #1, 1) == presentation && arg(call (*signatureVerifier).VerifyVPSignature #1, 2) == validAt
+//@           && isNilIface(ret(call (*signatureVerifier).VerifyVPSignature #1))
+//@   call (Verifier).Verify #1 requires [credential-signature-checked-unless-self-attested]
+//@           arg(1) == current && arg(2) == allowUntrustedVCs && arg(4) == validAt
+//@           && (arg(3) == false ==> presentation.Holder != nil && presentation.Holder.String() == current.Issuer.String() && len(current.Proof) == 0)
+//@   ensures [returns-the-presented-credentials] isNilIface(result.1) ==> result.0 == presentation.VerifiableCredential
+
+// ---- signature verification (C01, C17) ----
+//@ func (*signatureVerifier).VerifySignature
+//@   prop C01 C17
+//@   nullable validateAt
+//@   assume-benign
+//@   ensures [dispatch-on-format] isNilIface(result) ==>
+//@        (did(call (*signatureVerifier).jsonldProof #1) && isNilIface(ret(call (*signatureVerifier).jsonldProof #1))
+//@           && arg(call (*signatureVerifier).jsonldProof #1, 2) == credentialToVerify.Issuer.String() && arg(call (*signatureVerifier).jsonldProof #1, 3) == validateAt)
+//@     || (did(call (*signatureVerifier).jwtSignature #1) && isNilIface(ret(call (*signatureVerifier).jwtSignature #1))
+//@           && arg(call (*signatureVerifier).jwtSignature #1, 1) == credentialToVerify.Raw()
+//@           && arg(call (*signatureVerifier).jwtSignature #1, 2) == credentialToVerify.Issuer.String() && arg(call (*signatureVerifier).jwtSignature #1, 3) == validateAt)
+
+//@ func (*signatureVerifier).jsonldProof
+//@   prop C01 C17
+//@   nullable at
+//@   call (resolver.KeyResolver).ResolveKeyByID #1 requires [key-of-proof-valid-at-time]
+//@           arg(1) == ldProof.VerificationMethod.String() && arg(2).ResolveTime == at && arg(3) == resolver.NutsSigningKeyType
+//@   call (proof.LDProof).Verify #1 requires [verify-with-issuers-key-at-time]
+//@           verificationMethod != "" && verificationMethodIssuer != "" && verificationMethodIssuer == issuer
+//@        && verificationMethod == ldProof.VerificationMethod.String() && verificationMethodIssuer == strings.Split(verificationMethod, "#")[0]
+//@        && did(call (proof.ProofOptions).ValidAt #1) && ret(call (proof.ProofOptions).ValidAt #1) == true
+//@        && (at != nil ==> arg(call (proof.ProofOptions).ValidAt #1, 1) == *at)
+//@        && (at == nil ==> arg(call (proof.ProofOptions).ValidAt #1, 1) == ret(call time.Now #1))
+//@        && arg(call (proof.ProofOptions).ValidAt #1, 2) == maxSkew
+//@        && isNilIface(ret(call (resolver.KeyResolver).ResolveKeyByID #1).1)
+//@        && arg(3) == ret(call (resolver.KeyResolver).ResolveKeyByID #1).0
+//@   ensures [success-only-if-signature-verified] isNilIface(result) ==> did(call (proof.LDProof).Verify #1) && isNilIface(ret(call (proof.LDProof).Verify #1))
+
+//@ func (*signatureVerifier).jwtSignature
+//@   prop C01 C17
+//@   nullable at
+//@   ensures [verified-by-ParseJWT] isNilIface(result) ==> did(call crypto.ParseJWT #1) && arg(call crypto.ParseJWT #1, 0) == jwtDocumentToVerify
+//@           && isNilIface(ret(call crypto.ParseJWT #1).1)
+//@   ensures [kid-of-issuer] isNilIface(result) && keyID != "" ==> strings.Split(keyID, "#")[0] == issuer
+
+//@ func (*signatureVerifier).jwtSignature$1
+//@   prop C01 C17
+//@   call (*signatureVerifier).resolveSigningKey #1 requires [key-by-kid-or-issuer-at-time] arg(1) == kid && arg(2) == issuer && arg(3).ResolveTime == at
+
+//@ func (*signatureVerifier).jwtSignature$2
+//@   prop C01
+//@   ensures [clock-is-validation-time] at != nil ==> result == *at
+
+//@ func (*signatureVerifier).resolveSigningKey
+//@   prop C01 C17
+//@   assume-benign
+//@   call (resolver.KeyResolver).ResolveKeyByID #1 requires [kid-or-issuer-assertion-key]
+//@           arg(2) == metadata && arg(3) == resolver.NutsSigningKeyType
+//@        && (old(kid) != "" ==> arg(1) == old(kid) || arg(1) == old(kid) + "#0")
+//@        && (old(kid) == "" ==> arg(1) == issuer || arg(1) == issuer + "#0")
+
+// Helpers of other packages as seen from this package (their bodies are verified in their own packages
+// where a contract exists there; the effect summaries here are ASSUMED).
+//@ func (proof.SignedDocument).DocumentWithoutProof
+//@   trusted
+//@   benign
+//@ func (proof.SignedDocument).UnmarshalProofValue
+//@   trusted
+//@   modifies args
+//@ func proof.NewSignedDocument
+//@   trusted
+//@   benign
+//@ func (jsonld.JSONLD).DocumentLoader
+//@   trusted
+//@   benign
+//@ func credential.PresenterIsCredentialSubject
+//@   trusted
+//@   benign
+//@ func credential.PresentationSigner
+//@   trusted
+//@   benign
+//@ func (*signatureVerifier).VerifyVPSignature
+//@   trusted
+//@   benign
+// package-level function variable (= crypto.ExtractProtectedHeaders)
+//@ func ExtractProtectedHeaders
+//@   trusted
+//@   benign
+
+//@ func newVerificationError
+//@   prop C01
+//@   modifies nothing
+//@   ensures !isNilIface(result)
+//@ func toVerificationError
+//@   prop C01
+//@   modifies nothing
+//@   ensures !isNilIface(result)
